@@ -374,7 +374,7 @@ class C04(Property):
                 oi = drv["on_impl"]
                 if drv["arc"]:
                     # a span stays a well-formed span: one part, or two disjoint parts meeting at the origin
-                    spec_ok = oi["canon"] == drv["expected"] and oi["inside"] and (
+                    spec_ok = oi["canon"] == drv["expected"] and oi["inside"] and oi["disjoint"] and oi["nparts"] <= 2 and (
                         oi["area_wf"] or any(p[2] == -1 for p in case["a"]["parts"]))
                     tags.append("arc")
                 else:   # multi-exon input: outer ends only; introns are not filled (by design)
